@@ -427,6 +427,75 @@ HEADER = ('From Coq Require Import NArith ZArith String List Bool Uint63.\n'
           'Import ListNotations.\nOpen Scope string_scope.\n')
 
 
+# ------------------------------------------------------------------ shared by the two property modules
+def run_harness(ctx, cases, batch=150):
+    results = []
+    for k in range(0, len(cases), batch):
+        payload = {'cases': [{kk: v for kk, v in c.items() if kk != 'tags'} for c in cases[k:k + batch]]}
+        results.extend(ctx.run_impl('sqw_impl.py', payload)['cases'])
+    return results
+
+
+def norm_reason(r):
+    r = re.sub(r'@\d+', '', r)
+    r = re.sub(r'\.\d+\.', '.N.', r)
+    return r
+
+
+def case_size(c):
+    return sum(cl.get('npix', 0) for cl in c['calls'])
+
+
+def py_structure(raw):
+    """the property statement evaluated directly on the bytes (used by search/replay): header, table, extents to EOF"""
+    bo = '<' if int.from_bytes(raw[:4], 'little') < int.from_bytes(raw[:4], 'big') else '>'
+    pos = 0
+
+    def u32():
+        nonlocal pos
+        v = struct.unpack(bo + 'I', raw[pos:pos + 4])[0]
+        pos += 4
+        return v
+
+    def chars():
+        nonlocal pos
+        n = u32()
+        s = raw[pos:pos + n]
+        pos += n
+        return s.decode('latin1')
+    prog = chars()
+    ver = struct.unpack(bo + 'd', raw[pos:pos + 8])[0]
+    pos += 8
+    ty, nd = u32(), u32()
+    bat_size = u32()
+    bat_begin = pos
+    nblocks = u32()
+    descs = []
+    for _ in range(nblocks):
+        t, n1, n2 = chars(), chars(), chars()
+        p = struct.unpack(bo + 'Q', raw[pos:pos + 8])[0]
+        pos += 8
+        sz, lk = u32(), u32()
+        descs.append({'type': t, 'name': [n1, n2], 'position': p, 'size': sz})
+    problems = []
+    if prog != 'horace' or ver != 4.0 or ty != 1:
+        problems.append('header')
+    if bat_size != pos - bat_begin:
+        problems.append('bat size field')
+    exp = pos
+    for d in descs:
+        if d['position'] != exp:
+            problems.append(f'extent of {d["name"]} starts at {d["position"]}, expected {exp}')
+        exp = d['position'] + d['size']
+    if exp != len(raw):
+        problems.append(f'last extent ends at {exp}, file has {len(raw)} bytes')
+    names = [tuple(d['name']) for d in descs]
+    if len(set(names)) != len(names):
+        problems.append('duplicate block in the table')
+    return {'byteorder': 'little' if bo == '<' else 'big', 'n_dims': nd, 'descs': descs, 'problems': problems}
+
+
+
 # ------------------------------------------------------------------ source facts for tie A
 def source_facts(repo):
     """small syntactic facts of /repo's CURRENT _build.py: the canonical block order tuple, the default pixel
@@ -485,3 +554,111 @@ def gen_sqw_v(facts):
             '(* `for offset in range(0, %s, chunk_size)` in _PixWrap.write *)\nDefinition src_loop_bound : bound_kind := %s.\n'
             '(* _PixWrap.size: %s *)\n') % (
         facts['sha256'], order, rows, units, facts['loop_stop_src'], facts['bound'], facts.get('pix_size_src'))
+
+
+# ------------------------------------------------------------------ unit tables of writer (_models.py) and reader (_sqw.py)
+def _const_str(node):
+    return node.value if isinstance(node, ast.Constant) and isinstance(node.value, str) else None
+
+
+def _eval_unit_list(node):
+    """["1/angstrom"] * 3 + ["meV"]  ->  list of str (fail-closed)"""
+    if isinstance(node, ast.List):
+        out = [_const_str(e) for e in node.elts]
+        if any(o is None for o in out):
+            raise ValueError('unit list element is not a string literal')
+        return out
+    if isinstance(node, ast.BinOp) and isinstance(node.op, ast.Add):
+        return _eval_unit_list(node.left) + _eval_unit_list(node.right)
+    if isinstance(node, ast.BinOp) and isinstance(node.op, ast.Mult) and isinstance(node.right, ast.Constant):
+        return _eval_unit_list(node.left) * int(node.right.value)
+    raise ValueError('unit list expression not understood: ' + ast.unparse(node))
+
+
+READER_CLASS = {'_parse_ix_sample_0_0': 'IX_sample', '_parse_line_proj_7_0': 'line_proj',
+                '_parse_single_ix_experiment_3_0': 'IX_experiment'}
+
+
+def unit_facts(repo):
+    base = os.path.join(repo, 'src', 'scippneutron', 'io', 'sqw')
+    models = ast.parse(open(os.path.join(base, '_models.py')).read())
+    reader = ast.parse(open(os.path.join(base, '_sqw.py')).read())
+    writer_units, writer_multi = [], {}
+    for cls in [n for n in models.body if isinstance(n, ast.ClassDef)]:
+        serial = None
+        for st in cls.body:
+            if isinstance(st, ast.AnnAssign) and isinstance(st.target, ast.Name) and st.target.id == 'serial_name':
+                serial = _const_str(st.value)
+        for fn in [n for n in cls.body if isinstance(n, ast.FunctionDef) and n.name == '_serialize_to_dict']:
+            local = {}
+            for st in ast.walk(fn):
+                if isinstance(st, ast.Assign) and len(st.targets) == 1 and isinstance(st.targets[0], ast.Name):
+                    if st.targets[0].id == 'units':
+                        writer_multi[serial] = _eval_unit_list(st.value)
+                    # w = _variable_to_float_array(self.w, "1/angstrom")
+                    v = st.value
+                    if isinstance(v, ast.Call) and isinstance(v.func, ast.Name) and v.func.id == '_variable_to_float_array' \
+                            and len(v.args) == 2 and _const_str(v.args[1]) is not None:
+                        local[st.targets[0].id] = _const_str(v.args[1])
+            for d in [n for n in ast.walk(fn) if isinstance(n, ast.Dict)]:
+                for k, v in zip(d.keys, d.values):
+                    key = _const_str(k)
+                    if key is None:
+                        continue
+                    if isinstance(v, ast.Call) and isinstance(v.func, ast.Name) and v.func.id == '_variable_to_float_array' \
+                            and len(v.args) == 2:
+                        u = _const_str(v.args[1])
+                        if u is not None:
+                            writer_units.append([serial, key, u])
+                    elif isinstance(v, ast.Name) and v.id in local:
+                        writer_units.append([serial, key, local[v.id]])
+    reader_units, reader_multi = [], {}
+    for fn in [n for n in reader.body if isinstance(n, ast.FunctionDef) and n.name in READER_CLASS]:
+        cls = READER_CLASS[fn.name]
+        units_list = None
+        for st in ast.walk(fn):
+            if isinstance(st, ast.Assign) and len(st.targets) == 1 and isinstance(st.targets[0], ast.Name) \
+                    and st.targets[0].id == 'units':
+                units_list = _eval_unit_list(st.value)
+                reader_multi[cls] = units_list
+        for call in [n for n in ast.walk(fn) if isinstance(n, ast.Call)]:
+            kw = {k.arg: k.value for k in call.keywords}
+            if 'unit' not in kw:
+                continue
+            fields = [_const_str(c.args[1]) for c in ast.walk(call)
+                      if isinstance(c, ast.Call) and isinstance(c.func, ast.Name) and c.func.id == '_get_struct_field'
+                      and len(c.args) == 2]
+            names = [_const_str(a) for a in call.args]       # get_vec("u", unit=units[0])
+            u = _const_str(kw['unit'])
+            if u is None and isinstance(kw['unit'], ast.Subscript) and isinstance(kw['unit'].value, ast.Name) \
+                    and kw['unit'].value.id == 'units' and units_list is not None and isinstance(kw['unit'].slice, ast.Constant):
+                u = units_list[kw['unit'].slice.value]
+            if u is None:
+                continue
+            if fields and fields[0] is not None:
+                reader_units.append([cls, fields[0], u])
+            elif isinstance(call.func, ast.Name) and call.func.id == 'get_vec' and names and names[0] is not None:
+                reader_units.append([cls, names[0], u])
+    for need in READER_CLASS:
+        if not any(isinstance(n, ast.FunctionDef) and n.name == need for n in reader.body):
+            raise ValueError(f'_sqw.py: parser {need} not found')
+    if not any(w[:2] == ['IX_sample', 'alatt'] for w in writer_units) or not any(r[:2] == ['IX_sample', 'alatt'] for r in reader_units):
+        raise ValueError('unit extraction did not find the sample lattice parameters')
+    return {'writer_units': writer_units, 'reader_units': reader_units, 'writer_multi': writer_multi, 'reader_multi': reader_multi}
+
+
+def gen_units_v(f):
+    def triples(l):
+        return '[' + '; '.join(f'({cq(a)}, {cq(b)}, {cq(c)})' for a, b, c in l) + ']'
+
+    def multi(d):
+        return '[' + '; '.join(f'({cq(k)}, [' + '; '.join(cq(u) for u in v) + '])' for k, v in sorted(d.items())) + ']'
+    return ('(* GENERATED on every run from /repo/src/scippneutron/io/sqw/_models.py and _sqw.py *)\n'
+            'From Coq Require Import String List.\nImport ListNotations.\nLocal Open Scope string_scope.\n'
+            '(* (class, field, unit the WRITER converts to)  -- _variable_to_float_array(x, unit) in _serialize_to_dict *)\n'
+            f'Definition writer_units : list (string * string * string) := {triples(f["writer_units"])}.\n'
+            '(* (class, field, unit the READER attaches)  -- sc.vector/sc.array(..., unit=...) in _parse_* *)\n'
+            f'Definition reader_units : list (string * string * string) := {triples(f["reader_units"])}.\n'
+            '(* `units = [...]` lists used for img_scales / img_range / offset *)\n'
+            f'Definition writer_multi_units : list (string * list string) := {multi(f["writer_multi"])}.\n'
+            f'Definition reader_multi_units : list (string * list string) := {multi(f["reader_multi"])}.\n')
